@@ -25,16 +25,16 @@ const ModPath = "github.com/flant/shell-operator"
 type Prog struct {
 	Dir     string
 	Overlay map[string][]byte
-	Fset  *token.FileSet
-	Roots []*packages.Package          // all root packages of the module (incl. test/ helpers)
-	Pkgs  map[string]*packages.Package // product packages (cmd/, pkg/) by import path
-	All   []*packages.Package          // product packages sorted by path
-	NAll  int                          // number of packages in the whole import graph
+	Fset    *token.FileSet
+	Roots   []*packages.Package          // all root packages of the module (incl. test/ helpers)
+	Pkgs    map[string]*packages.Package // product packages (cmd/, pkg/) by import path
+	All     []*packages.Package          // product packages sorted by path
+	NAll    int                          // number of packages in the whole import graph
 
-	Funcs   map[string]*Func     // key -> function (declared functions and methods of product packages)
+	Funcs   map[string]*Func // key -> function (declared functions and methods of product packages)
 	byObj   map[*types.Func]*Func
 	litOf   map[*ast.FuncLit]*Lit
-	sites   []*Site              // every call expression in product code
+	sites   []*Site // every call expression in product code
 	sitesBy map[types.Object][]*Site
 	refs    map[types.Object][]*Ref // non-call references to functions / uses of fields
 	graphs  map[ast.Node]*Graph
@@ -133,10 +133,10 @@ func Load(dir string, overlay map[string][]byte) (*Prog, error) {
 	cfg := &packages.Config{
 		Mode: packages.NeedName | packages.NeedFiles | packages.NeedCompiledGoFiles | packages.NeedImports |
 			packages.NeedDeps | packages.NeedTypes | packages.NeedSyntax | packages.NeedTypesInfo | packages.NeedTypesSizes | packages.NeedModule,
-		Dir:   dir,
-		Fset:  fset,
-		Env:   filtered,
-		Tests: false,
+		Dir:     dir,
+		Fset:    fset,
+		Env:     filtered,
+		Tests:   false,
 		Overlay: overlay,
 	}
 	roots, err := packages.Load(cfg, "./...")
